@@ -33,6 +33,7 @@ const ENV_NAMES: &[&str] = &[
     "built-elsewhere-then-cloned",
     "extra-properties-added-and-removed",
     "into_raw+from_raw",
+    "unrelated-instances-inserted-and-destroyed-around-it",
 ];
 
 pub struct DetSim {
@@ -149,6 +150,22 @@ fn build_env(tree: &NodeSpec, env: u8, seed: u64) -> (WeakDom, Ref) {
             let r = dom.insert(root, b);
             let (rr, map) = dom.into_raw();
             (WeakDom::from_raw(rr, map), r)
+        }
+        8 => {
+            // Other instances come and go in the same DOM, so the instance map
+            // has another capacity, probe order and tombstones.
+            let mut junk = Vec::new();
+            for j in 0..(seed % 23 + 5) {
+                junk.push(dom.insert(root, InstanceBuilder::new("Folder").with_name(format!("junk{}", j))));
+            }
+            dom.reserve(64);
+            let mut next = 0;
+            let b = nested_builder(tree, &refs, &mut next, &mut None);
+            let r = dom.insert(root, b);
+            for j in junk {
+                dom.destroy(j);
+            }
+            (dom, r)
         }
         _ => {
             let mut next = 0;
